@@ -62,12 +62,18 @@ func (p *ParserPlanner) jsonWithParams(str string, labels *map[string]string) (m
 		name := p.ParameterNames[i]
 		pa = append(pa, pathAhead{label: name, path: path})
 	}
-	jpp := &jsonPathProcessor{labels: labels}
-	err := jpp.process(dec, pa)
-	if err != nil {
-		return nil, err
+	// every named label is set, as the ClickHouse planner does for the same stage
+	// (mapUpdate(labels, mapFromArrays(names, values))): to the value its path leads to, to "" when the
+	// path leads nowhere or the line cannot be decoded
+	found := make(map[string]string, len(pa))
+	jpp := &jsonPathProcessor{labels: &found}
+	if err := jpp.process(dec, pa); err != nil {
+		found = nil
 	}
-	return *jpp.labels, nil
+	for _, a := range pa {
+		(*labels)[a.label] = found[a.label]
+	}
+	return *labels, nil
 }
 
 func (j *jsonPathProcessor) process(dec *jx.Decoder, aheads []pathAhead) error {
